@@ -220,6 +220,153 @@ Example C11_nonvacuous :
   icanon (cA false false) false (mk [(s2p "n", PBool true)]) = false.
 Proof. repeat split; try (vm_compute; reflexivity). intro H. discriminate H. Qed.
 
+(* ================================================================== copies are independent objects
+
+   The clause "a deep copy or unpickled copy is fully independent: any later mutation of either instance,
+   through any field or container method, is applied to that instance only" is about object IDENTITY.  The
+   model is Struct/CopyHeap.v (objects at heap locations; deepcopy parametrised by the copy policy that
+   harness/genmods/copy_sites.py re-reads from Structure.__deepcopy__ and the wrappers' __deepcopy__ on
+   every run, Gen/CopySites.v); the proofs are in Struct/CopyHeapProofs.v. *)
+From TP Require Import Struct.CopyHeap Struct.CopyHeapProofs Struct.StatePolicy Struct.StatePolicyProofs Gen.CopySites Struct.CopySitesSafe.
+
+(* A deep copy under a policy that re-uses only values of deeply immutable types: the heap is extended and
+   never written, the copy denotes the value of the original, and no mutable object is reachable from both. *)
+Theorem C11_deepcopy_separated : forall pol fuel h x h' y,
+    policy_safe pol = true -> closedb h = true -> imm_opaqueb h = true -> child_okb (List.length h) x = true ->
+    dc pol fuel h x = Some (h', y) ->
+    (exists e, h' = (h ++ e)%list) /\ closed h' /\ child_ok (List.length h') y /\
+    (forall f, abs f h' y = abs f h x) /\ (forall f, abs f h' x = abs f h x) /\
+    separated h' x y.
+Proof. exact dc_separated. Qed.
+
+(* Separation is an invariant of EVERY interleaved history of operations of the two holders (allocation of
+   new objects, in-place change of any mutable object one can get at, keeping references), and each
+   operation leaves the value of the other side's instance unchanged. *)
+Theorem C11_separated_frames : forall h a b ops,
+    closedb h = true -> child_okb (List.length h) a = true -> child_okb (List.length h) b = true ->
+    separated h a b -> valid2 h a b [] [] ops ->
+    frames h a b ops /\ separated (run2 h ops) a b.
+Proof. exact frame_steps. Qed.
+
+(* The two together, for the policy of the CURRENT source: stops compiling (Struct/CopySitesSafe.v) when an
+   edit makes Structure.__deepcopy__ or a wrapper's __deepcopy__ re-use a possibly mutable value. *)
+Theorem C11_deepcopy_independent : forall fuel h x h' y ops,
+    closedb h = true -> imm_opaqueb h = true -> child_okb (List.length h) x = true ->
+    dc copy_sites fuel h x = Some (h', y) ->
+    valid2 h' x y [] [] ops ->
+    (forall f, abs f h' y = abs f h x) /\ frames h' x y ops /\ separated (run2 h' ops) x y.
+Proof. intros fuel h x h' y ops. exact (dc_independent copy_sites fuel h x h' y ops copy_sites_safe). Qed.
+
+(* the pickle round trip rebuilds every object *)
+Theorem C11_pickle_independent : forall fuel h x h' y ops,
+    closedb h = true -> imm_opaqueb h = true -> child_okb (List.length h) x = true ->
+    pickle_heap fuel h x = Some (h', y) ->
+    valid2 h' x y [] [] ops ->
+    (forall f, abs f h' y = abs f h x) /\ frames h' x y ops /\ separated (run2 h' ops) x y.
+Proof. intros fuel h x h' y ops. exact (dc_independent all_deep fuel h x h' y ops eq_refl). Qed.
+
+(* characterisation, other direction: a policy that re-uses values of a type whose instances can hold (or
+   be) mutable objects is refuted by a computed witness - the copy shares a mutable object, its holder can
+   change it, and the value of the ORIGINAL changes *)
+Theorem C11_unsafe_policy_witness : forall pol t k,
+    In t (unsafe_types_of (cp_attr pol)) -> kind_of_ty t = Some k ->
+    exists h' y,
+      dc pol 3 (witness_heap k) (CRef 2) = Some (h', y) /\
+      ~ separated h' (CRef 2) y /\
+      cop_pre h' y [] witness_op /\
+      abs 4 (cop_heap h' witness_op) (CRef 2) <> abs 4 h' (CRef 2).
+Proof. exact unsafe_policy_witness. Qed.
+
+(* copy.copy is equal in value but shares every attribute value: outside the independence claim *)
+Theorem C11_shallow_copy : 
+    (forall h x h' y, closedb h = true -> child_okb (List.length h) x = true -> copy_shallow h x = Some (h', y) ->
+                      forall f, abs f h' y = abs f h x /\ abs f h' x = abs f h x) /\
+    (exists h x h' y, copy_shallow h x = Some (h', y) /\ ~ separated h' x y /\
+                      cop_pre h' y [] witness_op /\ abs 4 (cop_heap h' witness_op) x <> abs 4 h' x).
+Proof. exact (conj copy_shallow_value copy_shallow_shares). Qed.
+
+(* the pickle round trip under the __getstate__ policy read from the CURRENT source (Gen/CopySites.v): equal
+   to the original with the same string whenever only declared fields are stored and no name is None-marked;
+   stops compiling when __getstate__ no longer keeps every declared name present in __dict__ *)
+Theorem C11_pickle_eq_today : forall c undef num_str str_repr enum_vrepr x,
+    pickle_safe c x = true ->
+    exists y, pickle_rt_pol state_sites c x = Some y /\
+              inst_eq c undef y x = true /\ inst_eq c undef x y = true /\
+              inst_str num_str str_repr enum_vrepr y = inst_str num_str str_repr enum_vrepr x.
+Proof.
+  intros c undef num_str str_repr enum_vrepr x.
+  exact (pickle_pol_eq num_str str_repr enum_vrepr state_sites c undef x state_sites_safe).
+Qed.
+
+(* a __getstate__ that keeps only truthy values loses a stored 0 *)
+Theorem C11_getstate_truthy_refuted :
+    exists x y, pickle_safe gs_class x = true /\
+                pickle_rt_pol {| sp_fields := GsAllFields; sp_filter := GsTruthy; sp_value := GsFieldValue |} gs_class x = Some y /\
+                inst_eq gs_class true y x = false.
+Proof. exact getstate_truthy_refuted. Qed.
+
+(* what the executable check run on observed object graphs reports is real sharing *)
+Theorem C11_separation_check_sound : forall fuel h a b l,
+    In l (shared_mutable fuel h a b) -> reach h a l /\ reach h b l /\ mutable_at h l = true.
+Proof. exact shared_mutable_sound. Qed.
+
+Print Assumptions C11_deepcopy_separated.
+Print Assumptions C11_separated_frames.
+Print Assumptions C11_deepcopy_independent.
+Print Assumptions C11_pickle_independent.
+Print Assumptions C11_unsafe_policy_witness.
+Print Assumptions C11_shallow_copy.
+Print Assumptions C11_pickle_eq_today.
+Print Assumptions C11_getstate_truthy_refuted.
+Print Assumptions C11_separation_check_sound.
+
+(* non-vacuity: a Team-like instance (a Tuple field holding a nested instance, an Array field whose wrapper
+   holds another); its deep copy under the current policy; a history in which the holder of the copy renames
+   the nested instance inside the tuple, builds a new instance and appends it through the wrapper, and the
+   holder of the original changes its nested instance and keeps a reference: every step is admissible *)
+Definition nv_heap : heap :=
+  [ {| o_kind := KInst (s2p "P") false; o_kids := [(s2p "name", CAtom (str_s "ann"))] |};
+    {| o_kind := KTuple; o_kids := [([], CRef 0)] |};
+    {| o_kind := KInst (s2p "P") false; o_kids := [(s2p "name", CAtom (str_s "cid"))] |};
+    {| o_kind := KWList; o_kids := [([], CRef 2)] |};
+    {| o_kind := KInst (s2p "T") false; o_kids := [(s2p "lead", CRef 1); (s2p "members", CRef 3)] |} ].
+
+Definition nv_ops : list (side * cop) :=
+  [ (SideB, CSet 5 [(s2p "name", CAtom (str_s "ANN"))]);
+    (SideB, CAlloc {| o_kind := KInst (s2p "P") false; o_kids := [(s2p "name", CAtom (str_s "fay"))] |});
+    (SideB, CSet 9 [([], CRef 7); ([], CRef 11)]);
+    (SideA, CSet 0 [(s2p "name", CAtom (str_s "bob"))]);
+    (SideA, CHold 2) ].
+
+Example C11_heap_nonvacuous :
+  closedb nv_heap = true /\ imm_opaqueb nv_heap = true /\ policy_safe copy_sites = true /\
+  exists h',
+    dc copy_sites 5 nv_heap (CRef 4) = Some (h', CRef 10) /\
+    valid2 h' (CRef 4) (CRef 10) [] [] nv_ops /\
+    abs 5 (run2 h' nv_ops) (CRef 10) <> abs 5 h' (CRef 10) /\
+    abs 5 (run2 h' nv_ops) (CRef 4) <> abs 5 h' (CRef 4).
+Proof.
+  split; [vm_compute; reflexivity |]. split; [vm_compute; reflexivity |]. split; [exact copy_sites_safe |].
+  eexists. split; [vm_compute; reflexivity |].
+  split; [| split; intro H; vm_compute in H; discriminate H].
+  cbn.
+  repeat split.
+  - left. eapply reach_kid; [reflexivity | left; reflexivity |].
+    eapply reach_kid; [reflexivity | left; reflexivity | apply reach_here].
+  - intros k m I. destruct I as [I|[]]; discriminate I.
+  - intros k m I. destruct I as [I|[]]; discriminate I.
+  - left. eapply reach_kid; [reflexivity | right; left; reflexivity | apply reach_here].
+  - intros k m [I|[I|[]]]; inversion I; subst.
+    + left. eapply reach_kid; [reflexivity | right; left; reflexivity |].
+      eapply reach_kid; [reflexivity | left; reflexivity | apply reach_here].
+    + right. exists 11. split; [left; reflexivity | apply reach_here].
+  - left. eapply reach_kid; [reflexivity | left; reflexivity |].
+    eapply reach_kid; [reflexivity | left; reflexivity | apply reach_here].
+  - intros k m I. destruct I as [I|[]]; discriminate I.
+  - left. eapply reach_kid; [reflexivity | right; left; reflexivity |].
+    eapply reach_kid; [reflexivity | left; reflexivity | apply reach_here].
+Qed.
+
 (* ---- the tie to the source, re-checked by the kernel on every run -------------------------------------
    Gen/EqHashSrc.v is re-generated from typedpy/structures/structures.py (harness/genmods/py2v_eqhash.py):
    Structure.__eq__, __ne__, __hash__, __str__ (with list_to_str / dict_to_str / to_str), __repr__, __getstate__,
